@@ -17,10 +17,10 @@ theorem ResOK.ofReach {entry pc pcEnd : Nat} {tail : Bool} {rs vs : List (Val F)
     (h : Reach fo host P ⟨pc, rs, st.inp :: vs, fr, st.trace⟩ ⟨pcEnd, v :: rs, st'.inp :: vs, fr, st'.trace⟩) :
     ResOK fo host P entry pc pcEnd tail rs vs fr st (.val v) st' := h
 
-/-- the apply instruction at `pcA` with its operands popped, given the evaluator's `applyVals` -/
+/-- the apply instruction at `pcA` with its operands popped, given the evaluator's `applyValsS` -/
 theorem apply_reach {fuel cur : Nat} (ihA : SimA fo host P bodies fuel) {instr : Instruction} {useRight : Bool}
     {f x : Val F} {st st' : St F} {res : Res F}
-    (h : applyVals fo host bodies cur fuel instr useRight f x st = .ok (res, st'))
+    (h : applyValsS fo host bodies cur fuel instr useRight f x st = .ok (res, st'))
     {pcA : Nat} {regs rs vs : List (Val F)} {fr : List (Frame F)} (hlt : pcA + 1 < P.instrs.size)
     (hstep : step fo host P ⟨pcA, regs, st.inp :: vs, fr, st.trace⟩ =
       finish P (applyStep fo host P ⟨pcA, rs, st.inp :: vs, fr, st.trace⟩ instr useRight f x)) :
@@ -35,11 +35,11 @@ theorem sim_unary {fuel : Nat} (ih : SimE fo host P bodies fuel) (ihA : SimA fo 
   have h0 := h
   simp only [Located] at hloc
   obtain ⟨hlx, hi⟩ := hloc
-  simp only [wfE, Bool.and_eq_true] at hwf
+  simp only [wfC, Bool.and_eq_true] at hwf
   have hen' : root = cur ∨ enFree x = true := by simpa [enFree] using hen
   have hend : pc + len (.unary op x) = pc + len x + 1 := by simp only [len]; omega
   rw [hend] at hlt ⊢
-  simp only [evalF] at h
+  simp only [evalFS] at h
   rcases eval_cases (fo := fo) (host := host) (bodies := bodies) (cur := cur) (fuel := fuel) (x := x) (st := st)
     with ⟨w, st1, hx⟩ | ⟨w, st1, hx⟩ | ⟨e, hx⟩ | hx <;> simp only [hx] at h
   · have ihx := (ih x cur st _ _ hx root pc rs vs fr entry hlx hwf.2 hen' hj hent (by omega)).toReach
@@ -70,11 +70,11 @@ theorem sim_binary {fuel : Nat} (ih : SimE fo host P bodies fuel) (ihA : SimA fo
   have h0 := h
   simp only [Located] at hloc
   obtain ⟨hll, hlr, hi⟩ := hloc
-  simp only [wfE, Bool.and_eq_true] at hwf
+  simp only [wfC, Bool.and_eq_true] at hwf
   have hen' : root = cur ∨ (enFree l = true ∧ enFree r = true) := by simpa [enFree] using hen
   have hend : pc + len (.binary op l r) = pc + len l + len r + 1 := by simp only [len]; omega
   rw [hend] at hlt ⊢
-  simp only [evalF] at h
+  simp only [evalFS] at h
   rcases eval_cases (fo := fo) (host := host) (bodies := bodies) (cur := cur) (fuel := fuel) (x := l) (st := st)
     with ⟨wl, st1, hx⟩ | ⟨w, st1, hx⟩ | ⟨e, hx⟩ | hx <;> simp only [hx] at h
   · have ihl := (ih l cur st _ _ hx root pc rs vs fr entry hll hwf.1.2 (hen'.imp id (·.1)) hj hent (by omega)).toReach
@@ -120,11 +120,11 @@ theorem sim_pair {fuel : Nat} (ih : SimE fo host P bodies fuel)
   have h0 := h
   simp only [Located] at hloc
   obtain ⟨hlr, hll, hi⟩ := hloc
-  simp only [wfE, Bool.and_eq_true] at hwf
+  simp only [wfC, Bool.and_eq_true] at hwf
   have hen' : root = cur ∨ (enFree l = true ∧ enFree r = true) := by simpa [enFree] using hen
   have hend : pc + len (.pair l r) = pc + len r + len l + 1 := by simp only [len]; omega
   rw [hend] at hlt ⊢
-  simp only [evalF] at h
+  simp only [evalFS] at h
   rcases eval_cases (fo := fo) (host := host) (bodies := bodies) (cur := cur) (fuel := fuel) (x := r) (st := st)
     with ⟨wr, st1, hx⟩ | ⟨w, st1, hx⟩ | ⟨e, hx⟩ | hx <;> simp only [hx] at h
   · have ihr := (ih r cur st _ _ hx root pc rs vs fr entry hlr hwf.2 (hen'.imp id (·.2)) hj hent (by omega)).toReach
@@ -156,11 +156,11 @@ theorem sim_applyTo {fuel : Nat} (ih : SimE fo host P bodies fuel) (ihA : SimA f
   have h0 := h
   simp only [Located] at hloc
   obtain ⟨hlf, hlx, hi⟩ := hloc
-  simp only [wfE, Bool.and_eq_true] at hwf
+  simp only [wfC, Bool.and_eq_true] at hwf
   have hen' : root = cur ∨ (enFree x = true ∧ enFree f = true) := by simpa [enFree] using hen
   have hend : pc + len (.applyTo x f) = pc + len f + len x + 1 := by simp only [len]; omega
   rw [hend] at hlt ⊢
-  simp only [evalF] at h
+  simp only [evalFS] at h
   rcases eval_cases (fo := fo) (host := host) (bodies := bodies) (cur := cur) (fuel := fuel) (x := f) (st := st)
     with ⟨wf, st1, hx⟩ | ⟨w, st1, hx⟩ | ⟨e, hx⟩ | hx <;> simp only [hx] at h
   · have ihf := (ih f cur st _ _ hx root pc rs vs fr entry hlf hwf.2 (hen'.imp id (·.2)) hj hent (by omega)).toReach
@@ -190,11 +190,11 @@ theorem sim_seq {fuel : Nat} (ih : SimE fo host P bodies fuel)
   intro cur st res st' h root pc rs vs fr entry hloc hwf hen hj hent hlt
   simp only [Located] at hloc
   obtain ⟨hla, hi, hlb⟩ := hloc
-  simp only [wfE, Bool.and_eq_true] at hwf
+  simp only [wfC, Bool.and_eq_true] at hwf
   have hen' : root = cur ∨ (enFree a = true ∧ enFree b = true) := by simpa [enFree] using hen
   have hend : pc + len (.seq a b) = pc + len a + 1 + len b := by simp only [len]; omega
   rw [hend] at hlt ⊢
-  simp only [evalF] at h
+  simp only [evalFS] at h
   rcases eval_cases (fo := fo) (host := host) (bodies := bodies) (cur := cur) (fuel := fuel) (x := a) (st := st)
     with ⟨wa, st1, hx⟩ | ⟨w, st1, hx⟩ | ⟨e, hx⟩ | hx <;> simp only [hx] at h
   · have iha := (ih a cur st _ _ hx root pc rs vs fr entry hla hwf.1 (hen'.imp id (·.1)) hj hent (by omega)).toReach
@@ -222,11 +222,11 @@ theorem sim_sideAfter {fuel : Nat} (ih : SimE fo host P bodies fuel)
   have h0 := h
   simp only [Located] at hloc
   obtain ⟨hlx, hi1, hlb, hi2⟩ := hloc
-  simp only [wfE, Bool.and_eq_true] at hwf
+  simp only [wfC, Bool.and_eq_true] at hwf
   have hen' : root = cur ∨ (enFree x = true ∧ enFree b = true) := by simpa [enFree] using hen
   have hend : pc + len (.sideAfter x b) = pc + len x + 1 + len b + 1 := by simp only [len]; omega
   rw [hend] at hlt ⊢
-  simp only [evalF] at h
+  simp only [evalFS] at h
   rcases eval_cases (fo := fo) (host := host) (bodies := bodies) (cur := cur) (fuel := fuel) (x := x) (st := st)
     with ⟨wx, st1, hx⟩ | ⟨w, st1, hx⟩ | ⟨e, hx⟩ | hx <;> simp only [hx] at h
   · have ihx := (ih x cur st _ _ hx root pc rs vs fr entry hlx hwf.1.1 (hen'.imp id (·.1)) hj hent (by omega)).toReach
@@ -254,11 +254,11 @@ theorem sim_reapply {fuel : Nat} (ih : SimE fo host P bodies fuel)
   intro cur st res st' h root pc rs vs fr entry hloc hwf hen hj hent hlt
   simp only [Located] at hloc
   obtain ⟨hlx, hi1, hi2⟩ := hloc
-  simp only [wfE] at hwf
+  simp only [wfC] at hwf
   have hen' : root = cur ∨ enFree x = true := by simpa [enFree] using hen
   have hend : pc + len (.reapply x) = pc + len x + 2 := by simp only [len]; omega
   rw [hend] at hlt ⊢
-  simp only [evalF] at h
+  simp only [evalFS] at h
   rcases eval_cases (fo := fo) (host := host) (bodies := bodies) (cur := cur) (fuel := fuel) (x := x) (st := st)
     with ⟨w, st1, hx⟩ | ⟨w, st1, hx⟩ | ⟨e, hx⟩ | hx <;> simp only [hx] at h
   · have ihx := (ih x cur st _ _ hx root pc rs vs fr entry hlx hwf hen' hj hent (by omega)).toReach
